@@ -101,6 +101,10 @@ def random_case(rng, features=()):
         if "unknown" in features and rng.random() < 0.7:
             body.insert(rng.randrange(len(body) + 1),
                         L("unknown", text=rng.choice(["#foo bar", "#warning w", "#line 7", "#error e", "#ident \"x\"", "#sccs y"])))
+        if "redefine" in features:
+            for m in CMD_MACROS:          # lines whose attribution depends on the VALUE a command-line macro ends up with
+                body += [L("if", expr=("eq", ("id", m), ("num", 1))), L("code"), L("elif", expr=("eq", ("id", m), ("num", 2))),
+                         L("code"), L("elif", expr=("eq", ("id", m), ("num", 3))), L("code"), L("else"), L("code"), L("endif")]
         files[rel] = body
         srcs.append(rel)
     if "dupes" in features:
@@ -117,6 +121,14 @@ def random_case(rng, features=()):
         links[d + "/link_" + os.path.basename(tgt)] = ("rel:" if rng.random() < 0.5 else "") + tgt
         if rng.random() < 0.5:
             links["cb/lnkdir"] = "cb/inc"
+    if "linkinc" in features:
+        # a code-base header that every source also includes through a symbolic link beside it (another spelling
+        # of the same file, reached from several translation units and platforms)
+        hp = rng.choice(sorted(k for k in files if k.endswith(".h") and k.startswith("cb/")))
+        via = "via_" + os.path.basename(hp)
+        for src in srcs:
+            links[os.path.dirname(src) + "/" + via] = ("rel:" if rng.random() < 0.5 else "") + hp
+            files[src].insert(rng.choice([0, len(files[src])]), L("include", name=via, angle=False))
     nplat = rng.randint(2, 3) if "multi" in features else 1
     platforms = {}
     for pi in range(nplat):
@@ -131,6 +143,11 @@ def random_case(rng, features=()):
             defines = []
             for m in rng.sample(CMD_MACROS, rng.randint(0, 2)):
                 defines.append(rng.choice([m, m + "=0", m + "=2", m + "=1"]))
+            if "redefine" in features and defines:
+                # the same macro given several times with different values (only for order/hash-seed independence
+                # checks: which one wins is the tool's choice, but it must always be the same one)
+                m = defines[0].split("=")[0]
+                defines += [m + "=" + v for v in rng.sample(["0", "1", "2", "3"], 3)]
             if "computed" in features:
                 for h in HEADERS:
                     q = rng.random() < 0.5
